@@ -189,8 +189,8 @@ func earliest() *vtimer {
 	return best
 }
 
-func fire(t *vtimer) {
-	// called with mu held
+// fireOne arms the consequences of one timer (called with mu held, returns with mu held).
+func fireOne(t *vtimer) {
 	if t.period > 0 {
 		t.deadline += t.period
 	} else {
@@ -211,6 +211,20 @@ func fire(t *vtimer) {
 		default:
 		}
 	}
+	mu.Lock()
+}
+
+// fire fires t and every other timer armed for the very same instant (their goroutines may then
+// run in any order), then lets the woken goroutines run — exactly the engine's step.
+func fire(t *vtimer) {
+	dl := t.deadline
+	fireOne(t)
+	for _, o := range append([]*vtimer{}, timers...) {
+		if o != t && o.active && o.deadline == dl {
+			fireOne(o)
+		}
+	}
+	mu.Unlock()
 	if ctl.LibMode() {
 		ctl.HPoint("quiesce") // the engine runs everything to quiescence after each firing
 	}
